@@ -172,8 +172,11 @@ function makeWorld(spec) {
         const rec = { t: 'upd' }
         pending.push({ rec, fn: v })
         es.push([k, rec])
-      } else if (V.isModelListener(k) && Array.isArray(v) && v.every((f) => typeof f === 'function' && !f.__fn)) {
-        const xs = v.map((f) => { const rec = { t: 'upd' }; pending.push({ rec, fn: f }); return rec })
+      } else if (V.isModelListener(k) && Array.isArray(v) && v.some((f) => typeof f === 'function' && !f.__fn)) {
+        const xs = v.map((f) => {
+          if (!(typeof f === 'function' && !f.__fn)) return canon(f, d + 1)
+          const rec = { t: 'upd' }; pending.push({ rec, fn: f }); return rec
+        })
         es.push([k, { t: 'arr', xs }])
       } else es.push([k, canon(v, d + 1)])
     }
